@@ -403,8 +403,68 @@ var (
 
 func mapped(v4 string) string { return "::ffff:" + v4 }
 
+// blocked ranges by the statement's list (loopback, private, link-local, multicast, unspecified), as
+// (first address, prefix length); addresses are drawn at the boundaries and inside
+var blockedV4 = []struct {
+	base [4]byte
+	bits int
+}{{[4]byte{127, 0, 0, 0}, 8}, {[4]byte{10, 0, 0, 0}, 8}, {[4]byte{172, 16, 0, 0}, 12}, {[4]byte{192, 168, 0, 0}, 16}, {[4]byte{169, 254, 0, 0}, 16}, {[4]byte{224, 0, 0, 0}, 4}}
+
+var blockedV6 = []struct {
+	base [16]byte
+	bits int
+}{{[16]byte{0xfc}, 7}, {[16]byte{0xfe, 0x80}, 10}, {[16]byte{0xff}, 8}}
+
+func randInRange(rng *rand.Rand, base []byte, bits int) []byte {
+	out := append([]byte(nil), base...)
+	mode := rng.IntN(4) // 0 first address, 1 last address, 2-3 random inside
+	for i := bits; i < len(base)*8; i++ {
+		bit := byte(0)
+		switch mode {
+		case 1:
+			bit = 1
+		case 2, 3:
+			bit = byte(rng.IntN(2))
+		}
+		if bit == 1 {
+			out[i/8] |= 1 << (7 - uint(i%8))
+		}
+	}
+	return out
+}
+
+func randBadV4(rng *rand.Rand) string {
+	if rng.IntN(12) == 0 {
+		return "0.0.0.0"
+	}
+	r := blockedV4[rng.IntN(len(blockedV4))]
+	return net.IP(randInRange(rng, r.base[:], r.bits)).String()
+}
+
+func randBadV6(rng *rand.Rand) string {
+	switch rng.IntN(8) {
+	case 0:
+		return "::1"
+	case 1:
+		return "::"
+	}
+	r := blockedV6[rng.IntN(len(blockedV6))]
+	return net.IP(randInRange(rng, r.base[:], r.bits)).String()
+}
+
 func genIP(rng *rand.Rand, bad bool) string {
 	if bad {
+		if rng.IntN(2) == 0 {
+			// drawn from the whole blocked ranges, boundaries included
+			switch rng.IntN(3) {
+			case 0:
+				return randBadV4(rng)
+			case 1:
+				return randBadV6(rng)
+			default:
+				return mapped(randBadV4(rng))
+			}
+		}
 		switch rng.IntN(3) {
 		case 0:
 			return badV4[rng.IntN(len(badV4))]
